@@ -1,104 +1,6 @@
 /-
   C17 — String tags round-trip text and apply the NUL / UTF-8 rules within the tag size.
+  `C17Parts`: parsing characterisation and content round trip; `C17Ctor`: constructor -> tag image -> accessor round trip.
 -/
-import Mb2.Tags
-import Mb2.Build
-import Mb2.Lemmas.Arith
-namespace Mb2.C17
-open Mb2
-
-/-- parsing characterisation, for ANY content bytes (= the bytes `[fixed, size)` of the tag): the text is the bytes
-    before the first NUL when they are valid UTF-8; no NUL → MissingNul; invalid → Utf8. Never a panic, and the text
-    (plus its terminator) lies inside the given bytes. -/
-theorem parse_spec (bytes : Bytes) :
-    (∀ i, parseStr bytes = .ok i →
-        i < bytes.length ∧ bytes.getD i 1 = 0 ∧ (∀ j, j < i → bytes.getD j 0 ≠ 0) ∧ validUtf8 (bytes.take i) = true) ∧
-    (parseStr bytes = .error .missingNul ↔ ∀ j, j < bytes.length → bytes.getD j 0 ≠ 0) ∧
-    (parseStr bytes = .error .utf8 → ∃ i, i < bytes.length ∧ bytes.getD i 1 = 0 ∧ (∀ j, j < i → bytes.getD j 0 ≠ 0) ∧
-        validUtf8 (bytes.take i) = false) := by
-  unfold parseStr
-  cases hf : bytes.findIdx? (· == 0) with
-  | none =>
-    have hn := List.findIdx?_eq_none_iff.mp hf
-    refine ⟨fun i h => by simp at h, ⟨fun _ j hj => ?_, fun _ => rfl⟩, fun h => by simp at h⟩
-    have := hn (bytes[j]) (List.getElem_mem hj)
-    simp only [List.getD_eq_getElem?_getD, List.getElem?_eq_getElem hj, Option.getD_some]
-    simpa using this
-  | some i =>
-    have hs := List.findIdx?_eq_some_iff_getElem.mp hf
-    obtain ⟨hi, hz, hbefore⟩ := hs
-    have hz' : bytes.getD i 1 = 0 := by
-      simp only [List.getD_eq_getElem?_getD, List.getElem?_eq_getElem hi, Option.getD_some]; simpa using hz
-    have hb' : ∀ j, j < i → bytes.getD j 0 ≠ 0 := by
-      intro j hj
-      have hjl : j < bytes.length := by omega
-      have := hbefore j hj
-      simp only [List.getD_eq_getElem?_getD, List.getElem?_eq_getElem hjl, Option.getD_some]
-      simpa using this
-    simp only
-    by_cases hv : validUtf8 (bytes.take i) = true
-    · rw [if_pos hv]
-      refine ⟨fun k hk => ?_, ⟨fun h => by simp at h, fun h => ?_⟩, fun h => by simp at h⟩
-      · injection hk with hk; subst hk; exact ⟨hi, hz', hb', hv⟩
-      · exfalso
-        have := h i hi
-        simp only [List.getD_eq_getElem?_getD, List.getElem?_eq_getElem hi, Option.getD_some] at this
-        exact this (by simpa using hz)
-    · rw [if_neg hv]
-      refine ⟨fun k hk => by simp at hk, ⟨fun h => by simp at h, fun h => ?_⟩, fun _ => ⟨i, hi, hz', hb', by simpa using hv⟩⟩
-      exfalso
-      have := h i hi
-      simp only [List.getD_eq_getElem?_getD, List.getElem?_eq_getElem hi, Option.getD_some] at this
-      exact this (by simpa using hz)
-
-/-- first NUL of `s ++ 0 :: rest` when `s` has none -/
-theorem findIdx_append_nul (s rest : Bytes) (hs : ∀ b ∈ s, b ≠ 0) :
-    (s ++ (0 : UInt8) :: rest).findIdx? (· == 0) = some s.length := by
-  induction s with
-  | nil => simp [List.findIdx?_cons]
-  | cons a t ih =>
-    have ha : a ≠ 0 := hs a (by simp)
-    have := ih (fun b hb => hs b (by simp [hb]))
-    simp only [List.cons_append, List.findIdx?_cons, List.length_cons]
-    have hne : (a == 0) = false := by simpa using ha
-    rw [hne]
-    simp only [Bool.false_eq_true, if_false]
-    rw [this]
-    rfl
-
-/-- Round trip: for EVERY string `s` (Lean `String` = valid UTF-8 by construction, like Rust's `&str`) without a NUL byte,
-    the content the three constructors store (`s` followed by exactly one NUL, followed by arbitrary padding / next-tag
-    bytes `rest`) parses back to exactly the bytes of `s`. -/
-theorem roundtrip (s : String) (rest : Bytes) (hs : ∀ b ∈ s.toUTF8.data.toList, b ≠ 0) :
-    parseStr (strContent s.toUTF8.data.toList ++ rest) = .ok s.toUTF8.data.toList.length ∧
-    (strContent s.toUTF8.data.toList ++ rest).take s.toUTF8.data.toList.length = s.toUTF8.data.toList ∧
-    strContent s.toUTF8.data.toList = s.toUTF8.data.toList ++ [0] := by
-  have hc : strContent s.toUTF8.data.toList = s.toUTF8.data.toList ++ [0] := by
-    unfold strContent
-    by_cases hl : s.toUTF8.data.toList.getLast? = some 0
-    · exfalso
-      have := List.mem_of_getLast? hl
-      exact hs 0 this rfl
-    · rw [if_neg hl]
-  refine ⟨?_, ?_, hc⟩
-  · unfold parseStr
-    rw [hc, List.append_assoc]
-    simp only [List.singleton_append]
-    rw [findIdx_append_nul _ _ hs]
-    simp only
-    have hv : validUtf8 ((s.toUTF8.data.toList ++ 0 :: rest).take s.toUTF8.data.toList.length) = true := by
-      rw [List.take_left']
-      · unfold validUtf8
-        have e : ByteArray.mk s.toUTF8.data.toList.toArray = s.toUTF8 := by
-          cases s.toUTF8 with | mk d => simp
-        rw [e]
-        exact ByteArray.validateUTF8_eq_true_iff.mpr s.isValidUTF8
-      · rfl
-    rw [if_pos hv]
-  · rw [hc, List.append_assoc, List.take_left']; rfl
-
-/-! Non-vacuity -/
-example : parseStr [104, 105, 0, 122] = .ok 2 := by decide
-example : parseStr [104, 105] = .error .missingNul := by decide
-
-end Mb2.C17
+import Mb2.Props.C17Parts
+import Mb2.Props.C17Ctor
